@@ -38,3 +38,4 @@ PROP = {'modules': ['Discv5Model.Props.C17', 'Discv5Model.Props.C17Service', 'Di
  'level_note': 'Trusted: Lean kernel, extract.py, harness/driver; enr crate for signature/seq of the record (abstract success flag). The tie model<->code is a '
                'sampled differential check (plus thresholds derived from majority() for n<=400 and an f64 sweep to 10^6), not a proof. The service-side step '
                'is tied to the code by the scripted-service engine.'}
+PROP['rule'] += ' Monitors-only profile C17race (service engine): the vote scenarios with a thread of the application writing a field of its own into the local record through Discv5::external_enr() while each PONG is processed; the field must never be undone and no two different records may share a sequence number.'
